@@ -71,6 +71,9 @@ def utf8(cp):
 def c11(t, md, steps, flags):
     """FlatVec / FlatString = an ordinary Vec / String whose growth is refused beyond a fixed capacity"""
     out = []
+    if 'EQ-MISMATCH' in flags:
+        out.append('equality (==) disagrees with equality of contents: a fresh container with the same contents in a '
+                   'different buffer compares unequal, or one with different contents compares equal')
     if steps[0].get('init') != 'ok' or not steps[0].get('view', '').startswith('ok:'):
         return out
     cap0, cur = items_of(steps[0]['view'])
